@@ -524,6 +524,13 @@ def handle(dispatcher, conn, msg):
         return ('error_' + msg[0], msg[1], ['InternalError', repr(err), {}])
 
 
+def refusable(shape):
+    """the configuration asks for something frappy may refuse as a whole: readonly=False for a parameter whose
+    class has no write function (today it is accepted and a change ends in InternalError)"""
+    return any(x['kind'] == 'param' and x.get('via') == 'cfg' and (x.get('cls') or {}).get('ro') is True
+               and not x['ro'] and x['drv'] == 'absent' for accs in shape.values() for x in accs.values())
+
+
 def wire_of(req):
     """Dispatch.tla WireOf: a bare module specifier addresses target (change) / value (read)"""
     return req['name'] or ('target' if req['act'] == 'change' else 'value' if req['act'] == 'read' else '')
